@@ -104,6 +104,68 @@ def gen_type_prog(r, shared_ctor=False):
     return "\n".join(r2) + "\nfn dsp(){\n  " + " + ".join(uses or ["0.0"]) + "\n}\n"
 
 
+def gen_module_prog(r):
+    """modules exporting public functions drawn from a small pool (so names collide), two or more `use m::*`, explicit imports of
+    colliding names, a local definition shadowing imports; `dsp` calls bare and qualified names.  "First match wins" shapes."""
+    mod_pool = ["synth", "fx", "mid", "zed", "abc", "osc2", "Q", "util", "m9", "beta", "alpha", "core2"]
+    fn_pool = ["level", "gain", "tone", "wet", "mix", "a", "b", "pan"]
+    nm = r.range(2, 4)
+    mods = []
+    pool = list(mod_pool)
+    for _ in range(nm):
+        mods.append(pool.pop(r.below(len(pool))))
+    exports = {}
+    lines = []
+    val = 1
+    nested = r.chance(1, 5)
+    for m in mods:
+        fs = []
+        for f in fn_pool:
+            if r.chance(2, 5):
+                fs.append(f)
+        if not fs:
+            fs = [r.choice(fn_pool)]
+        exports[m] = fs
+        body = []
+        for f in fs:
+            body.append("    pub fn %s() { %d.0 }" % (f, val)); val *= 2
+        if r.chance(1, 3):
+            body.append("    fn hidden_%s() { 0.5 }" % m)
+        lines.append("%smod %s {\n%s\n}" % ("pub " if nested else "", m, "\n".join(body)))
+    if nested:
+        lines = ["mod outer {\n" + "\n".join("  " + l.replace("\n", "\n  ") for l in lines) + "\n}"]
+    pref = "outer::" if nested else ""
+    wild = [m for m in mods if r.chance(3, 4)]
+    if len(wild) < 2:
+        wild = mods[:2]
+    for i in range(len(wild) - 1, 0, -1):
+        j = r.below(i + 1)
+        wild[i], wild[j] = wild[j], wild[i]
+    uses = ["use %s%s::*" % (pref, m) for m in wild]
+    explicit = {}
+    for m in mods:
+        if r.chance(1, 3):
+            f = r.choice(exports[m])
+            if f not in explicit:
+                explicit[f] = m
+                uses.insert(r.below(len(uses) + 1), "use %s%s::%s" % (pref, m, f))
+    local = None
+    if r.chance(1, 3):
+        local = r.choice(fn_pool)
+        lines.append("fn %s() { %d.0 }" % (local, val)); val *= 2
+    avail = sorted({f for m in wild for f in exports[m]} | set(explicit) | ({local} if local else set()))
+    terms = ["%s()" % f for f in avail]
+    for m in mods:
+        if r.chance(1, 2):
+            terms.append("%s%s::%s()" % (pref, m, r.choice(exports[m])))
+    return "\n".join(lines) + "\n" + "\n".join(uses) + "\nfn dsp() {\n  " + " + ".join(terms) + "\n}\n"
+
+
+def gen_module_sources(ck, n):
+    return [{"name": "gen-mods-%d" % i, "src": gen_module_prog(ck.rng.fork(("C15mods", i))), "path": None, "sched": False,
+             "kind": "gen-mods"} for i in range(n)]
+
+
 def gen_type_sources(ck, n):
     return [{"name": "gen-types-%d" % i, "src": gen_type_prog(ck.rng.fork(("C15types", i))), "path": None, "sched": False,
              "kind": "gen-types"} for i in range(n)]
@@ -170,12 +232,38 @@ def obs_req(s, n, full=False):
     return {"op": "obs", "src": s["src"], "path": s["path"], "sched": s["sched"], "n": n, "full": full, "tag": s["name"]}
 
 
-def prelude_for(s):
-    """a program that mentions the identifiers of s in reverse lexicographic order: after it every symbol of s has an id
-    whose order is unrelated to the order of first occurrence in s"""
-    ids = sorted(set(re.findall(r"[A-Za-z_][A-Za-z0-9_]*", strip_mmm_comments(s["src"]))) - KEYWORDS, reverse=True)[:400]
+def idents_of(src):
+    seen, out = set(), []
+    for i in re.findall(r"[A-Za-z_][A-Za-z0-9_]*", strip_mmm_comments(src)):
+        if i not in seen and i not in KEYWORDS:
+            seen.add(i); out.append(i)
+    return out
+
+
+def prelude_for(s, mode, r):
+    """A PRIOR program of the same process that interns the names of s in another order than s itself does.
+    mode "rev":   a program mentioning the identifiers of s in REVERSE order of first occurrence (a fresh process interns them in
+                  order of first occurrence, so every pair of names ends up in the opposite Symbol order);
+    mode "shuf":  the identifiers in random order;
+    mode "uses":  s itself with its `use` statements in reverse order (also permutes the mangled names a$b of nested paths)."""
+    if mode == "uses":
+        lines = s["src"].split("\n")
+        idx = [i for i, l in enumerate(lines) if re.match(r"\s*(pub\s+)?use\b", l)]
+        if len(idx) >= 2:
+            vals = [lines[i] for i in idx][::-1]
+            for i, v in zip(idx, vals):
+                lines[i] = v
+            return {"op": "hist", "src": "\n".join(lines), "path": s["path"], "sched": s["sched"], "tag": "uses-reversed(" + s["name"] + ")"}
+        mode = "rev"
+    ids = idents_of(s["src"])[:600]
+    if mode == "rev":
+        ids = ids[::-1]
+    else:
+        for i in range(len(ids) - 1, 0, -1):
+            j = r.below(i + 1)
+            ids[i], ids[j] = ids[j], ids[i]
     body = "\n".join("  let %s = 0.0" % i for i in ids)
-    return {"op": "hist", "src": "fn hist_prelude(){\n%s\n  0.0\n}\n" % body, "path": None, "sched": False, "tag": "prelude(" + s["name"] + ")"}
+    return {"op": "hist", "src": "fn hist_prelude(){\n%s\n  0.0\n}\n" % body, "path": None, "sched": False, "tag": mode + "-prelude(" + s["name"] + ")"}
 
 
 def run_script(exe, reqs, timeout):
@@ -215,18 +303,23 @@ def site_status():
     m = importlib.util.module_from_spec(spec)
     spec.loader.exec_module(m)
     try:
-        _, _, _, _, sites = m.scan(REPO)
+        _, _, _, _, sites, osites = m.scan(REPO)
     except Exception as ex:
         return None, "translator: %s" % ex
     src = open(os.path.join(COQ, "theories", "Interner", "SiteClasses.v")).read()
-    ents = re.findall(r'mkClass\s+"((?:[^"]|"")*)"\s+"((?:[^"]|"")*)"\s+"((?:[^"]|"")*)"\s+"((?:[^"]|"")*)"\s+(\w+)', src)
-    ents = [tuple(x.replace('""', '"') for x in e[:4]) + (e[4],) for e in ents]
+    pat = r'mkClass\s+"((?:[^"]|"")*)"\s+"((?:[^"]|"")*)"\s+"((?:[^"]|"")*)"\s+"((?:[^"]|"")*)"\s+(\w+)'
+    cut = src.index("Definition order_classes")
+    ents_h, ents_o = [], []
+    for m_ in re.finditer(pat, src):
+        e = tuple(x.replace('""', '"') for x in m_.groups()[:4]) + (m_.group(5),)
+        (ents_h if m_.start() < cut else ents_o).append(e)
     missing = []
-    for f, fn, txt, ln, fp in sites:
-        ok = any(e[0] == f and e[1] == fn and e[2] == txt and (e[3] == fp or (e[3] == "*" and e[4] == "NotHash")) for e in ents)
-        if not ok:
-            missing.append({"file": f, "function": fn, "line": ln, "text": txt, "fingerprint": fp})
-    return sites, missing
+    for table, tsites, tents in (("hash_iter_sites", sites, ents_h), ("symbol_order_sites", osites, ents_o)):
+        for f, fn, txt, ln, fp in tsites:
+            ok = any(e[0] == f and e[1] == fn and e[2] == txt and (e[3] == fp or (e[3] == "*" and e[4] == "NotHash")) for e in tents)
+            if not ok:
+                missing.append({"table": table, "file": f, "function": fn, "line": ln, "text": txt, "fingerprint": fp})
+    return sites + osites, missing
 
 
 def interner_correspondence(ck, mexe, cexe, n_seq):
@@ -291,7 +384,7 @@ def run(ck):
 
     # ---- sources -------------------------------------------------------------------------------------------------
     n_samples = 32
-    srcs = corpus_sources() + shipped_sources() + gen_core_sources(ck, 120 if quick else 1200) + gen_type_sources(ck, 40 if quick else 300)
+    srcs = corpus_sources() + shipped_sources() + gen_core_sources(ck, 100 if quick else 1200) + gen_type_sources(ck, 30 if quick else 300) + gen_module_sources(ck, 40 if quick else 400)
     if ck.replay:
         rp = json.load(open(ck.replay))["replay"]
         if "source" in rp:
@@ -354,8 +447,9 @@ def run(ck):
             part = order[sh::nshard]
             reqs, owners = [], []
             for s in part:
-                if r.chance(1, 3):
-                    reqs.append(prelude_for(s)); owners.append(None)
+                # EVERY observation of these passes is preceded by a prior program that interns this source's names differently
+                mode = ("rev", "uses", "shuf", "rev", "shuf", "uses", "rev")[p % 7]
+                reqs.append(prelude_for(s, mode, r)); owners.append(None)
                 reqs.append(obs_req(s, n_samples)); owners.append(s)
             jobs.append(("B%d.%d" % (p, sh), reqs, owners))
 
@@ -497,9 +591,9 @@ def run(ck):
         if isinstance(missing, str):
             ck.violation("the iteration-site translator no longer understands the source", {"error": missing, "broken": ck.broken}, no_input=True)
         elif missing:
-            ck.violation("C15_sites_classified no longer checks: HashMap/HashSet iteration site(s) of the current source without a "
-                         "classification; the differential search found no difference in %d observations of %d sources" % (n_obs, len(qualified)),
-                         {"theorem": "Props/C15.v C15_sites_classified", "unclassified_sites": missing[:10], "broken": ck.broken}, no_input=True)
+            ck.violation("C15_sites_classified / C15_symbol_order_sites_classified no longer check: hash-iteration or ordered-by-Symbol site(s) of "
+                         "the current source without a classification; the differential search found no difference in %d observations of %d sources" % (n_obs, len(qualified)),
+                         {"theorem": "Props/C15.v C15_sites_classified / C15_symbol_order_sites_classified", "unclassified_sites": missing[:10], "broken": ck.broken}, no_input=True)
         elif not proved:
             ck.violation("a proof obligation of Props/C15.v no longer checks", {"broken": ck.broken}, no_input=True)
     return finish(ck)
@@ -524,5 +618,6 @@ def finish(ck):
                       "python generators (lib/lmmm.py Gen/pp_prog, gen_type_prog)", "std RandomState really differs between processes and maps"],
         rule=("sources: corpus/C15, every shipped .mmm under examples/, lib/, crates/lib/mimium-test/tests/mmm that the harness observes within the "
               "tier's time budget, generated core programs (functions, self, mem, delay, if, calls, lets, tuples) and generated sum-type/alias "
-              "programs; each observed twice alone in a fresh process, then once in each of 7 passes (fresh processes, shuffled order, 1 in 3 "
-              "preceded by a program interning its identifiers in reverse order); distinct_nontrivial = sources with at least one artefact"))
+              "programs; modules with colliding exports and >= 2 wildcard imports (gen-mods); each observed twice alone in a fresh process, then once "
+              "in each of 7 passes (fresh processes, shuffled order, EVERY observation preceded by a prior program that interns the source's "
+              "identifiers in reverse order of first occurrence / random order / is the source with its `use` lines reversed); distinct_nontrivial = sources with at least one artefact"))
